@@ -83,3 +83,14 @@ Fixpoint ev_stream_any (lo : Z) (cs : list events) : Prop :=
   | [] => True
   | c :: t => e_lo c = lo /\ lo <= e_hi c /\ Forall (fun x => lo <= x < e_hi c) (evs c) /\ ev_stream_any (e_hi c) t
   end.
+
+(* added with the repair "event_rate keeps events reported ahead of their block's span" (fix-C12-er).
+   A CAUSAL stream of Events chunks, as pipeline.edges emits it: the spans tile the timeline from lo (a chunk may span
+   zero samples) and every event lies at or after the START of the chunk that carries it.  It may lie at or beyond that
+   chunk's end: edges reports a rising edge when it is confirmed (up to min_samples after the samples of its block)
+   and a falling edge immediately. *)
+Fixpoint causal (lo : Z) (cs : list events) : Prop :=
+  match cs with
+  | [] => True
+  | c :: t => e_lo c = lo /\ lo <= e_hi c /\ Forall (fun x => lo <= x) (evs c) /\ causal (e_hi c) t
+  end.
